@@ -15,7 +15,8 @@ META = {
     'level': 'model_checking',
     'technique': 'exhaustive enumeration of real ancestor chains x name lists against an independent /proc/<pid>/status oracle',
     'text': 'All chains up to the depth bound over 9 special names (and depth 8/12 chains with the match at every position) x all lists up to the length bound (plus 50-item lists) are executed with real processes; '
-            'drop iff some ancestor (parent or higher, never the process itself, pid 1 included) has a name equal to a non-empty list item; with /proc hidden every list passes.',
+            'drop iff some ancestor (parent or higher, never the process itself, pid 1 included) has a name equal to a non-empty list item; with /proc hidden every list passes.'
+            ' Also: fabricated /proc trees with 7-digit pids, chains and callers inside PID namespaces that kept the outer /proc, ambient errno rotation.',
     'note': 'The bottom process carries a listed name itself in half of the cases (self must not count).',
 }
 NATIVE = os.path.join(VERIF, 'native')
